@@ -1,3 +1,4 @@
+import ErrModel.Engine
 import ErrModel.SX
 import ErrModel.Ctor
 /-
@@ -6,8 +7,8 @@ import ErrModel.Ctor
 -/
 namespace ErrModel
 
-/-- placeholder for the verbose redacted rendering until the engine supplies it -/
-def vfStub : Err → Str := fun _ => lit "<VF>"
+/-- the verbose redacted rendering a barrier embeds in its safe details -/
+def vfStub : Err → Str := vfE
 
 inductive Res
   | ok (e : Option Err)
@@ -97,9 +98,7 @@ def evalOp (op : String) (n : Nat) (ss : List Str) (ns : List Nat) (st : Stack)
   | "telemetry" => annot (.withTelemetry ss)
   | "domain" => annot (.withDomain s0)
   | "tags" =>
-    let kv := ss.takeWhile (· ≠ tagsSep)
-    let red := (ss.dropWhile (· ≠ tagsSep)).drop 1
-    .ok (cTags n (pairUp kv) red k0)
+    .ok (cTags n (pairUp ss) ns k0)
   | "assertion" => annot .withAssertionFailure
   | "safedetails" => if ns.getD 0 1 = 0 then .ok k0 else annot (.withSafeDetails ss)
   | "http" => annot (.withHTTPCode (ns.getD 0 0))
